@@ -93,7 +93,7 @@ def coq_make(targets, timeout=1500):
         rc, out = sh("coq_makefile -f _CoqProject -o Makefile", cwd=COQ, timeout=120)
         if rc != 0:
             raise Broken("build", "coq_makefile", out)
-    rc, out = sh("timeout %d make -j%d %s" % (timeout, NCPU, " ".join(targets)), cwd=COQ, timeout=timeout + 30)
+    rc, out = sh("timeout %d make -k -j%d %s" % (timeout, NCPU, " ".join(targets)), cwd=COQ, timeout=timeout + 30)
     return rc, out
 
 
